@@ -388,6 +388,17 @@ def _sis_build(cls, le, pt, ext):
                         off = _geom(P_OFF, fs, n, go)
                         s = img.add(eg.Sec('.s', st, data=b'', size=n, flags=fl, addr=addr, offset=off))
                         meta.append((s.index, fl, st, n, addr, off))
+    # compressed sections: containment is decided by the FILE extent (sh_size), never by the inflated size in the compression header
+    for fl in (0x800, 0x802):
+        for ch_size in (8, 0x1000):
+            n = 32
+            for ga in GEOMS:
+                for go in GEOMS:
+                    addr = _geom(P_VA, ms, n, ga)
+                    off = _geom(P_OFF, fs, n, go)
+                    body = img.f.chdr(1, ch_size, 1)
+                    s = img.add(eg.Sec('.z', 1, data=body + b'\0' * (n - len(body)), flags=fl, addr=addr, offset=off))
+                    meta.append((s.index, fl, 1, n, addr, off))
     img.add_shstrtab()
     img.seg(eg.Seg(pt, 4, P_OFF, P_VA, None, fs, ms, 8))
     return img, meta
@@ -458,5 +469,5 @@ def spaces(tier, seed):
         ListSpace('address-offsets', _addr_gen, _addr_check, rule='PT_LOAD layouts (one, disjoint, overlapping, abutting, filesz<memsz, zero-size, none, different biases, identical twice, high) x decoy '
                   'non-LOAD segments x every (start,size) over boundary points +-2 and sizes {0,1,2,0x40..0x201, to each end+-1}: complete product'),
         BulkSpace('section-in-segment', _sis_part, 64, _sis_replay, rule='complete product: 12 segment types x 5 extents x 6 flag sets x {PROGBITS,NOBITS} x size {0,8} x 8 address geometries x 8 offset geometries '
-                  'x class x order; non-trivial = inside the envelope (full binutils macro == the four named groups)'),
+                  'x class x order, plus SHF_COMPRESSED sections (alloc / non-alloc, inflated size smaller / larger than the 32-byte file extent) x the same 64 geometries; non-trivial = inside the envelope (full binutils macro == the four named groups)'),
     ]
